@@ -91,6 +91,50 @@ def r2_tolerance(o, p):
     return 1e-9 + 4 * eps * len(o) * cond
 
 
+SRC_FIELDS = ["n_prime", "ddof", "ddof_autocorr", "mse", "rmse", "rmse_adj", "rmse_autocorr_adj", "cvrmse", "cvrmse_adj",
+              "cvrmse_autocorr_adj", "pnrmse", "pnrmse_adj", "pnrmse_autocorr_adj", "nmae", "pnmae", "nmbe", "pnmbe", "r_squared_adj"]
+
+
+def src_field_agrees(f, lv, g, got, kv, d):
+    """generated formula (run on the model's base quantities) vs the attribute of the real class.  Where a statistic is an
+    ill-conditioned function of a base quantity (n' of the autocorrelation near +-1, anything over a ~zero denominator, the clamp
+    of ddof_autocorr at 1, adjusted R^2 of R^2) nothing is compared: the two sides legitimately differ in the last bits of that
+    base quantity, and the statistic (even its definedness) follows those bits."""
+    const_resid = (float(got["mse"]) - float(got["mbe"]) ** 2) <= 1e-10 * max(1.0, float(got["mse"]))
+    uses_rho = f in ("n_prime", "ddof_autocorr") or "autocorr" in f
+    tol = 1e-7
+    if f == "r_squared_adj":
+        r_l, r_i = unhex(kv["r_squared"]), float(got["r_squared"])
+        if r_l != r_l or r_i != r_i or d.get("r2tol", 0.0) > 1e-3:
+            return True                          # R^2 itself is undefined / ill-conditioned here (zero spread)
+        if float(got["ddof"]) - 1 <= 1e-3:
+            return True                          # (1 - R^2)(n - 1) / 0: inf or NaN according to the last bit of R^2
+    if uses_rho:
+        rho_l, rho_i = unhex(kv["autocorr"]), float(got["autocorr"])
+        if const_resid or rho_l != rho_l or rho_i != rho_i or 1 - rho_i * rho_i < 1e-3 or 1 - rho_l * rho_l < 1e-3:
+            return True
+        npr = float(got["src_n_prime"])
+        if abs(npr - d["k"] - 1) <= 1e-6 * max(1.0, abs(npr)):
+            return True                          # on the clamp of ddof_autocorr
+        tol = 1e-6 + 8 * abs(rho_l - rho_i) / (1 - rho_i * rho_i)
+    if f.startswith(("cvrmse", "nmae", "nmbe")) and abs(float(got["mean_obs"])) <= 1e-3:
+        return True                              # ratio over a ~zero mean (instances of finding C16-F1)
+    if f.startswith("pn") and abs(float(got["iqr"])) <= 1e-3:
+        return True
+    if g is None or lv == "none":
+        return (g is None) == (lv == "none")
+    a, b = unhex(lv), float(g)
+    if math.isinf(a) or math.isinf(b):
+        return a == b
+    if a != a or b != b:
+        return (a != a) == (b != b)
+    if f == "r_squared_adj":
+        n, dd = float(got["n"]), float(got["ddof"])
+        amp = (n - 1) / max(dd - 1, 1e-3)
+        return abs(a - b) <= 1e-7 * max(1.0, abs(b)) + 2 * d.get("r2tol", 0.0) * amp
+    return close(a, b, tol) or abs(a - b) <= 1e-9
+
+
 def safely_positive(den):
     return den > 1e-3
 
@@ -121,6 +165,8 @@ def run(ctx):
         bm = BaselineMetrics(df=df, num_model_params=k)
         res["evaluations"] += 1
         got = {f: getattr(bm, f) for f in FIELDS}
+        for f in SRC_FIELDS:                     # the statistics whose formula chain is re-extracted from the source (T1)
+            got["src_" + f] = getattr(bm, f)
         got["mean_obs"] = bm.observed.mean
         got["iqr"] = bm.observed.iqr
         got["autocorr"] = float(bm._df["residuals"].autocorr(lag=1)) if m.sum() > 2 else float("nan")
@@ -241,6 +287,14 @@ def run(ctx):
                         res["disagreements"].append(dict(op="metrics", kind=kind, field=f, lean=lv if lv == "none" else unhex(lv),
                                                          impl=None if g is None else float(g), case=d))
                         break
+                else:
+                    for f in SRC_FIELDS:
+                        lv, g = kv.get("src_" + f), got["src_" + f]
+                        if lv is None or not src_field_agrees(f, lv, g, got, kv, d):
+                            res["disagreements"].append(dict(op="metrics.generated_formula", kind=kind, field=f,
+                                                             lean=lv if lv in (None, "none") else unhex(lv),
+                                                             impl=None if g is None else float(g), case=d))
+                            break
             elif meta[0] == "safe_divide":
                 _, a, b, g = meta
                 exp = "ok none" if g is None else "ok " + (fhex(g) if g == g else "nan")
